@@ -1,7 +1,64 @@
 import Driver.Proto
+import GbVerif.Model.Ppu
+import GbVerif.Spec.Frame
+/-!
+C15 correspondence.  One line = one full frame from power-on with constant memories/registers:
+`c15 lcdc=.. scx=.. scy=.. wx=.. wy=.. bgp=.. obp0=.. obp1=.. bs=<batch seed> oam=<320 hex> vram=<16384 hex>
+ | frame=<46080 hex>`  (or `| panic=1` when `run_clock_cycles` panicked).
+The implementation's frame is compared pixel by pixel with the reference composition
+(`IMPL≠SPEC`, naming the first differing x, ly) and with the model's frame (`MODEL≠IMPL`).
+-/
 namespace Driver
+open GbVerif
 
-/-- C15 correspondence (stub) -/
-def checkC15 (l : Line) : Verdict := .bad s!"stream {l.stream} not implemented"
+/-- first (x, ly) where the implementation's frame differs from the reference composition -/
+def c15SpecDiff (r : FrameSpec.Regs) (vram oam : FrameSpec.Mem) (impl : Array Nat) : Option (Nat × Nat × Nat × Nat) := Id.run do
+  for ly in [0:144] do
+    let sel := FrameSpec.selected r oam ly
+    for x in [0:160] do
+      let s := FrameSpec.pixelOf r vram oam sel x ly
+      let i := impl[ly * 160 + x]!
+      if s != i then return some (x, ly, s, i)
+  return none
+
+def c15FirstDiff (a b : Array Nat) : Option Nat := Id.run do
+  for k in [0:a.size] do
+    if a[k]! != b[k]! then return some k
+  return none
+
+def checkC15 (l : Line) : Verdict :=
+  let rm : Ppu.Regs := { lcdc := l.inN "lcdc", scx := l.inN "scx", scy := l.inN "scy", wx := l.inN "wx",
+                         wy := l.inN "wy", bgp := l.inN "bgp", obp0 := l.inN "obp0", obp1 := l.inN "obp1" }
+  let rs : FrameSpec.Regs := { lcdc := rm.lcdc, scx := rm.scx, scy := rm.scy, wx := rm.wx, wy := rm.wy,
+                               bgp := rm.bgp, obp0 := rm.obp0, obp1 := rm.obp1 }
+  let vram := parseBytes (l.inS "vram")
+  let oam := parseBytes (l.inS "oam")
+  if vram.size != 8192 || oam.size != 160 then .bad s!"vram/oam size {vram.size}/{oam.size}"
+  else if rm.lcdc % 2 != 1 || rm.lcdc / 128 % 2 != 1 then .bad "LCDC bits 7 and 0 must be set (property: LCD and BG enabled)"
+  else
+    let model := Ppu.renderFrame rm vram oam
+    if l.outS "panic" != "" then
+      -- the reference defines a frame for every input: a panic contradicts it
+      .specDiff s!"implementation panicked ({l.outS "panic"}); spec defines a frame; model={match model with | .ok _ => "frame" | .error _ => "panic"}"
+    else
+      let impl := parseBytes (l.outS "frame")
+      if impl.size != 23040 then .bad s!"frame size {impl.size}"
+      else
+        match c15SpecDiff rs (fun a => vram[a]!) (fun a => oam[a]!) impl with
+        | some (x, ly, s, i) =>
+          let m := match model with
+            | .ok f => s!"{f[ly * 160 + x]!}"
+            | .error _ => "panic"
+          .specDiff s!"pixel x={x} ly={ly} spec={s} impl={i} model={m}"
+        | none =>
+          match model with
+          | .error _ => .modelDiff "model panics, implementation does not"
+          | .ok f =>
+            if f.size != 23040 then .modelDiff s!"model frame size {f.size}"
+            else match c15FirstDiff f impl with
+              | some k => .modelDiff s!"pixel x={k % 160} ly={k / 160} model={f[k]!} impl={impl[k]!}"
+              | none =>
+                -- non-trivial: more than one shade on screen
+                .ok (impl.any (· != impl[0]!))
 
 end Driver
